@@ -472,7 +472,7 @@ pub fn states(quick: bool) -> Vec<SaveState> {
                     for pattern in 0..2u8 {
                         for im in 0..3u8 {
                             let iff2 = (pattern + im) % 2 == 0;
-                            let border = ((k + j) as u8 + im * 3 + pattern) % 8;
+                            let border = (((k + j) % 8) as u8 + im * 3 + pattern) % 8;
                             let r = [0x00u8, 0x7F, 0x80, 0xFF][(k + im as usize) % 4];
                             let i = [0xFFu8, 0x80, 0x7F, 0x00][(j + pattern as usize) % 4];
                             c.push((pattern, im, iff2, border, r, i));
